@@ -985,6 +985,9 @@ func ResolveParam(v ssa.Value) ssa.Value {
 // BindParam records that prm stands for arg.
 func BindParam(prm *ssa.Parameter, arg ssa.Value) { paramBindings[prm] = arg }
 
+// UnbindParam forgets a binding made for the duration of one query.
+func UnbindParam(prm *ssa.Parameter) { delete(paramBindings, prm) }
+
 // ParamBinding returns the argument prm stands for, if any.
 func ParamBinding(prm *ssa.Parameter) ssa.Value { return paramBindings[prm] }
 
